@@ -222,9 +222,12 @@ impl<'a, 'b> Generator<'a, 'b> {
                     write!(self.out, "break");
                 }
                 IR::Return(t) => {
-                    write!(self.out, "return ");
+                    // NOTE: A Lua `return` has to be the last statement of its block - but
+                    // a Sylt `ret` can be followed by more statements.
+                    write!(self.out, "do return ");
                     let t = self.expand(t).to_string();
                     write!(self.out, "{}", t);
+                    write!(self.out, " end");
                 }
                 IR::HaltAndCatchFire(msg) => {
                     write!(self.out, "__CRASH(\"{}\")()", msg);
